@@ -11,6 +11,8 @@ FUNCTIONS = ["btc_hd_wallet.__main__.paranoia_mode", "btc_hd_wallet.__main__.mai
 BOUNDS = {"values": "master key, account, interval start free; interval length 0..2 (quick) / 0..4 (thorough); both networks; "
                     "every leaf at every nesting depth of the filtered mapping is classified by its term",
           "emission": "pprint and export_wallet of the filtered mapping, including the empty interval"}
+BOUNDS_ADDED = '23+ end-to-end runs with --paranoia anywhere in the argument vector: independent projection (nothing altered or invented, every public string kept), leaf-level leak check, short and blank-padded passphrases, targets that cannot be opened'
+BOUNDS["histories, lifetimes, injected faults, boundary vectors"] = BOUNDS_ADDED
 STUBS = ["as C06 (ckd contract, Base58Check summary, opaque text, MNEM summary, json.dumps recorder)",
          "sys.stdout.write and open() -> recording stubs"]
 ASSUMPTIONS = ["a leaf that cannot be classified as public (path text, address, SEC hex, extended public key) counts as secret"]
